@@ -305,7 +305,7 @@ func tailForward(call *ssa.Call) bool {
 				}
 				return false
 			}
-			if ex.Index >= len(ret.Results) || ret.Results[ex.Index] != ssa.Value(ex) {
+			if ex.Index >= len(ret.Results) || returnedValue(ret, ex.Index) != ssa.Value(ex) {
 				return false
 			}
 		}
@@ -614,7 +614,7 @@ func ruleCtxArmPure(c *Ctx, r *R) {
 					}
 					okErr := false
 					if isRet {
-						if call, ok := ret.Results[len(ret.Results)-1].(*ssa.Call); ok && call.Call.IsInvoke() && call.Call.Method.Name() == "Err" {
+						if call, ok := returnedValue(ret, len(ret.Results)-1).(*ssa.Call); ok && call.Call.IsInvoke() && call.Call.Method.Name() == "Err" {
 							okErr = true
 						}
 					}
